@@ -170,6 +170,10 @@ func checkC19(r *harness.Run) harness.Coverage {
 				}
 			}
 		}
+		if orderAlternatives != nil && j.ch != 2 {
+			// object-member order is unspecified: the two channels may legitimately print different orders
+			orderDependent[j.ei*len(inputs)+j.ii] = true
+		}
 		if wantOK && orderAlternatives != nil && stdout != wantOut {
 			// another admissible member order: accept the exact serialisation of any admissible outcome
 			var got interface{}
